@@ -610,9 +610,9 @@ class Subscription(BaseSubscription):
             for tagname, tags in filter_obj.tags:
                 pstr = []
                 for val in tags:
-                    if val:
-                        val = val.replace("'", "''")
-                        pstr.append(f"'{val}'")
+                    # an empty string is a value like any other (bare tags are stored as "")
+                    val = val.replace("'", "''")
+                    pstr.append(f"'{val}'")
                 if pstr:
                     pstr = ",".join(pstr)
                     subwhere.append(
